@@ -259,7 +259,7 @@ def _iscased_uni(c):
 # ----------------------------------------------------------------------
 # Thompson NFA with assertion edges
 # ----------------------------------------------------------------------
-EPS, CHAR, BOL, EOL, EOS, WB, NWB, LB, NLB = range(9)
+EPS, CHAR, BOL, EOL, EOS, WB, NWB, LB, NLB, LA = range(10)
 
 
 class RawNFA(object):
@@ -629,6 +629,85 @@ class _Builder(object):
             res = complement(res, self.alg.maxc)
         return res
 
+    def window_shapes(self, body, cap=64):
+        """[(charset ids, must_end)] for a look-ahead body made of single-character items, groups, alternations of such, and a closing end anchor"""
+        C = sre_c
+
+        def one(op, av):
+            if op is C.LITERAL:
+                return self.lit(av)
+            if op is C.NOT_LITERAL:
+                return complement(self.lit(av), self.alg.maxc)
+            if op is C.ANY:
+                return ((0, self.alg.maxc),) if self.dotall else complement(((10, 10),), self.alg.maxc)
+            if op is C.IN:
+                return self.in_set(av)
+            return None
+
+        def go(items):
+            # list of (tuple of interval sets, end kind) ; end kind 0 none, 1 `$`, 2 `\Z`
+            outs = [((), 0)]
+            for op, av in items:
+                nxt = []
+                iv = one(op, av)
+                if iv is not None:
+                    if not iv:
+                        return []
+                    for seq_, end in outs:
+                        if end:
+                            continue  # something after an end anchor: cannot match
+                        nxt.append((seq_ + (iv,), 0))
+                elif op is C.AT and av in (C.AT_END, C.AT_END_STRING):
+                    for seq_, end in outs:
+                        nxt.append((seq_, max(end, 1 if av is C.AT_END else 2)))
+                elif op is C.SUBPATTERN and not av[1] and not av[2]:
+                    subs = go(list(av[3]))
+                    for seq_, end in outs:
+                        if end:
+                            continue
+                        for s2, e2 in subs:
+                            nxt.append((seq_ + s2, e2))
+                elif op is C.BRANCH:
+                    subs = []
+                    for alt in av[1]:
+                        subs.extend(go(list(alt)))
+                    for seq_, end in outs:
+                        if end:
+                            continue
+                        for s2, e2 in subs:
+                            nxt.append((seq_ + s2, e2))
+                elif op in (C.MAX_REPEAT, C.MIN_REPEAT) and av[1] is not C.MAXREPEAT and av[1] <= 4:
+                    subs = go(list(av[2]))
+                    reps = []
+                    for k in range(av[0], av[1] + 1):
+                        cur = [((), 0)]
+                        for _ in range(k):
+                            cur = [(a + b, eb) for a, ea in cur if not ea for b, eb in subs]
+                        reps.extend(cur)
+                    for seq_, end in outs:
+                        if end:
+                            continue
+                        for s2, e2 in reps:
+                            nxt.append((seq_ + s2, e2))
+                else:
+                    raise Unsupported("look-ahead body %r" % (op,))
+                outs = nxt
+                if len(outs) > cap:
+                    raise Unsupported("look-ahead with too many alternatives")
+            return outs
+        shapes = []
+        for seq_, end in go(list(body)):
+            cids = tuple(self.alg.cs(iv) for iv in seq_)
+            if end == 0:
+                shapes.append((cids, False))
+            elif end == 2:
+                shapes.append((cids, True))
+            else:
+                # `$`: the end of the string, or a final newline then the end
+                shapes.append((cids, True))
+                shapes.append((cids + (self.alg.cs(((10, 10),)),), True))
+        return shapes
+
     def seq(self, items, s, e):
         cur = s
         items = list(items)
@@ -720,6 +799,30 @@ class _Builder(object):
                 if cid not in nfa.lb_sets:
                     nfa.lb_sets.append(cid)
                 nfa.add(s, LB if op is C.ASSERT else NLB, cid, e)
+            elif direction > 0:
+                # look-ahead over a fixed window: every alternative of the body is a sequence of single-character items,
+                # optionally closed by an end anchor.  The pending window is carried by the determinised states.
+                shapes = self.window_shapes(body)
+                if op is C.ASSERT:
+                    for cids, must_end in shapes:
+                        nfa.add(s, LA, (tuple((c, False) for c in cids), must_end), e)
+                else:
+                    # not (S1 or S2 ..) is (not S1) and (not S2) ..: one assertion after the other
+                    cur = s
+                    for k, (cids, must_end) in enumerate(shapes):
+                        nxt = e if k == len(shapes) - 1 else nfa.new()
+                        # not (c1 c2 .. ck follow):  the i-th following character is missing or outside ci, the earlier ones inside
+                        for i, c in enumerate(cids):
+                            iv = complement(self.alg.charset_list[c], self.alg.maxc)
+                            window = tuple((x, False) for x in cids[:i]) + ((self.alg.cs(iv) if iv else None, True),)
+                            nfa.add(cur, LA, (window, False), nxt)
+                        if must_end:
+                            # ... or all of them follow and the string goes on
+                            window = tuple((x, False) for x in cids) + ((self.alg.cs(((0, self.alg.maxc),)), False),)
+                            nfa.add(cur, LA, (window, False), nxt)
+                        cur = nxt
+                    if not shapes:
+                        nfa.add(s, EPS, None, e)
             else:
                 raise Unsupported("look-around")
         elif op is C.GROUPREF or op is C.GROUPREF_EXISTS:
@@ -809,8 +912,10 @@ class NfaAuto(Auto):
         self.x_acc = []
         work = []
 
-        def node(q, m):
-            k = (q, m)
+        NONE = ((), False)
+
+        def node(q, m, pd=NONE):
+            k = (q, m, pd)
             i = ids.get(k)
             if i is None:
                 i = len(ids)
@@ -818,42 +923,75 @@ class NfaAuto(Auto):
                 self.x_eps.append([])
                 self.x_chr.append([])
                 st, en, pv, nd = _unmon(m)
-                self.x_acc.append(q == self.nacc and nd in (0, 2))
+                self.x_acc.append(q == self.nacc and nd in (0, 2) and (not pd[0] or pd[0][0][1]))
                 work.append(k)
             return i
+
+        def meet(pa, pb):
+            """both look-ahead windows hold: position-wise intersection; None when they cannot both hold"""
+            (wa, ea), (wb_, eb) = pa, pb
+            out = []
+            for j in range(max(len(wa), len(wb_))):
+                if j < len(wa) and j < len(wb_):
+                    mk, ok = wa[j][0] & wb_[j][0], wa[j][1] and wb_[j][1]
+                else:
+                    longer, shorter_ends = (wa, eb) if j < len(wa) else (wb_, ea)
+                    mk, ok = longer[j]
+                    if shorter_ends:
+                        # the other window requires the string to end here
+                        return (tuple(out), True) if ok else None
+                if not mk:
+                    if not ok:
+                        return None
+                    return (tuple(out), True)
+                out.append((mk, ok))
+            return (tuple(out), ea or eb)
 
         s0 = node(self.nstart, _mon(0, 0, 0, 0))
         self.x_start = s0
         while work:
-            q, m = work.pop()
-            i = ids[(q, m)]
+            q, m, pd = work.pop()
+            i = ids[(q, m, pd)]
             st, en, pv, nd = _unmon(m)
             for kind, payload, t in nfa.edges[q]:
                 if kind == EPS:
-                    self.x_eps[i].append(node(t, m))
+                    self.x_eps[i].append(node(t, m, pd))
                 elif kind == BOL:
                     if not st:
-                        self.x_eps[i].append(node(t, m))
+                        self.x_eps[i].append(node(t, m, pd))
                 elif kind == EOL:
-                    self.x_eps[i].append(node(t, _mon(st, max(en, 1), pv, nd)))
+                    self.x_eps[i].append(node(t, _mon(st, max(en, 1), pv, nd), pd))
                 elif kind == EOS:
-                    self.x_eps[i].append(node(t, _mon(st, 2, pv, nd)))
+                    self.x_eps[i].append(node(t, _mon(st, 2, pv, nd), pd))
+                elif kind == LA:
+                    window, must_end = payload
+                    new = meet(pd, (tuple(((alg.cs_mask[c] if c is not None else 0), ok) for c, ok in window), must_end))
+                    if new is not None:
+                        self.x_eps[i].append(node(t, m, new))
                 elif kind in (LB, NLB):
                     bit = lb_bit[payload]
                     holds = bool(st) and bool((pv >> bit) & 1)
                     if holds == (kind == LB):
-                        self.x_eps[i].append(node(t, m))
+                        self.x_eps[i].append(node(t, m, pd))
                 elif kind in (WB, NWB):
                     # \b: word(prev) != word(next);  \B: equal
                     pw = bool(pv & 1)
                     want_next_word = (not pw) if kind == WB else pw
                     nn = _NEED_MEET.get((nd, 1 if want_next_word else 2), 3)
                     if nn != 3:
-                        self.x_eps[i].append(node(t, _mon(st, en, pv, nn)))
+                        self.x_eps[i].append(node(t, _mon(st, en, pv, nn), pd))
                 elif kind == CHAR:
                     mask = alg.cs_mask[payload]
                     if en == 2:
                         continue
+                    npd = NONE
+                    if pd[0]:
+                        mask &= pd[0][0][0]
+                        if not mask:
+                            continue
+                        npd = (pd[0][1:], pd[1])
+                    elif pd[1]:
+                        continue  # the window required the string to end here
                     if en == 1:
                         mask &= NL
                         if not mask:
@@ -876,7 +1014,7 @@ class NfaAuto(Auto):
                     else:
                         parts = [(mask, 0)]
                     for pm, npv in parts:
-                        self.x_chr[i].append((pm, node(t, _mon(1, nen, npv, 0))))
+                        self.x_chr[i].append((pm, node(t, _mon(1, nen, npv, 0), npd)))
         n = len(ids)
         # epsilon closures as bitmasks
         self.clos = [0] * n
